@@ -37,6 +37,7 @@ type World struct {
 	readsDone   bool
 	discovering bool
 	axioms      []*compiledAxiom
+	axiomsUsed  map[string]bool
 }
 
 type FieldInfo struct {
@@ -62,7 +63,7 @@ type UFunc struct {
 func newWorld(P *Program) *World {
 	return &World{P: P, structs: map[string]*StructSort{}, bySortName: map[string]*StructSort{}, boxed: map[string]bool{},
 		typeIDs: map[string]int{}, ufuncs: map[string]*UFunc{}, usorts: map[string]bool{},
-		heapSorts: map[string]string{}, assumptions: map[string]bool{}, uncontracted: map[string]bool{}, libUsed: map[string]bool{}}
+		heapSorts: map[string]string{}, axiomsUsed: map[string]bool{}, assumptions: map[string]bool{}, uncontracted: map[string]bool{}, libUsed: map[string]bool{}}
 }
 
 func (w *World) typeID(t types.Type) int {
@@ -294,6 +295,7 @@ func (w *World) prelude() string {
 		sb.WriteString("))\n")
 	}
 	sb.WriteString("))\n")
+	sb.WriteString("(declare-fun sidx (Int Int) Int)\n(assert (forall ((o Int) (i Int)) (! (= (sidx o i) (+ o i)) :pattern ((sidx o i)))))\n")
 	for _, n := range w.uforder {
 		f := w.ufuncs[n]
 		fmt.Fprintf(&sb, "(declare-fun %s (%s) %s)\n", f.Name, strings.Join(f.Args, " "), f.Res)
